@@ -25,7 +25,8 @@ ConfigEnv == AllEnv \cup {"RemoveConfig", "AddConfig"}                     \* + 
 BreakOnlyEnv == {"BreakSignature"}          \* selftest: the property set is not satisfiable for this kind of corruption
 ConfigOnlyEnv == {"RemoveConfig", "AddConfig"}
 ProfileEnv == WideEnv \cup {"RemoveProfile", "AddProfile"}                  \* + the shared profile file deleted and put back
-EverythingEnv == FullEnv \cup {"RemoveConfig", "AddConfig", "RemoveProfile", "AddProfile"}
+EverythingEnv == FullEnv \cup {"RemoveConfig", "AddConfig", "RemoveProfile", "AddProfile", "SetProfile"}
+SwitchEnv == WideEnv \cup {"SetProfile", "RemoveProfile", "AddProfile"}    \* + the profile reference of an entity written in / taken out
 ExpiryFlagSets == SUBSET {"m", "c", "e"}
 NoProfile == {}
 LeafProfile == {"l"}
